@@ -1,5 +1,5 @@
 """C02 - new: NewT stores each argument in the field it is named after."""
-from vlib import core, newgen, pkgrun
+from vlib import core, newgen, pkgrun, xferleg
 
 PROP = "C02"
 LEAN_MODULES = ["ShootVerif.Props.C02"]
@@ -108,6 +108,7 @@ def run(ctx, obl):
     res.rule = ("seeded random struct trees (1-5 fields per level over an 18-type palette, value/pointer embeds to depth 3, shadowing by name reuse, "
                 "`new`/`def=`/`new:\"-\"`/`_` markers, generics); each rendered to a package, `shoot new -type=T` run, generated NewT compiled and "
                 "called with sentinel arguments, every leaf read back by reflection. non-trivial = at least one parameter and an embed, mark or default")
+    xferleg.run(ctx, res, ctx.n(20000, 200000))
     res.assumptions = ["reflection reads of unexported fields report the stored value", "bool arguments are only told apart from zero, not from each other"]
     return res
 
